@@ -63,10 +63,15 @@ def run(ctx):
     rp = ctx.tlc(sdir, "RegistrarLocks.tla", "MC_RegistrarLocks_persel.cfg", timeout=600, count=False)
     if rp["inv"] != "WholeGeneration":
         raise vlib.InfraError('"per-selection" instance should violate WholeGeneration, TLC says %s' % rp["inv"])
+    rl = ctx.tlc(sdir, "RegistrarLocks.tla", "MC_RegistrarLocks_leak.cfg", timeout=600, count=False)
+    if rl["inv"] not in ("FailedReloadHoldsNothing", "NoLeakAtEnd", "Deadlock", "EventuallyAllDone"):
+        raise vlib.InfraError('"lock-first-leak" reload instance should leak the write lock, TLC says %s' % rl["inv"])
     ctx.stage("A", invariants=["TypeOK", "WholeGeneration", "ResponseComplete", "LockBalance", "MutualExclusion",
-                               "SelectUnderReadLock", "NoLeakAtEnd"], liveness=["EventuallyAllDone (WF per process)"],
+                               "SelectUnderReadLock", "NoLeakAtEnd", "FailedReloadHoldsNothing", "FailedReloadInstallsNothing"],
+              liveness=["EventuallyAllDone (WF per process)"],
               deadlock_check=True,
-              nonvacuity='"nested-deferred" instance: Deadlock reached; "per-selection" instance: WholeGeneration violated')
+              nonvacuity='"nested-deferred" instance: Deadlock reached; "per-selection" instance: WholeGeneration violated; '
+                         '"lock-first-leak" reload instance: %s violated' % rl["inv"])
 
     # ---------------------------------------------------------------- B0: which protocol does the code follow?
     pout = os.path.join(ctx.scratch, "probe.ndjson")
@@ -87,7 +92,7 @@ def run(ctx):
     nb = {}
     nontrivial = 0
     total = 0
-    scen = ["a", "b"] if gen_protocol == "single" else ["a"]   # a defective protocol is reported from the first scenario already
+    scen = ["a", "b", "d"] if gen_protocol == "single" else ["a"]   # d: a reload that fails (malformed file) before one that succeeds   # a defective protocol is reported from the first scenario already
     with open(beh_all, "w") as fo:
         for sc in scen:
             g = ctx.tlc(sdir, "Gen_RegistrarLocks.tla", "Gen_RegistrarLocks_%s_%s.cfg" % (suf, sc), timeout=1500, workers=8, count=False)
